@@ -1,8 +1,13 @@
 """C16 — LZ compression rows count each string's own parse phrases.
 Model: lean/VecModel/Model/LZ.lean, theorems: lean/VecModel/Props/C16.lean."""
 import itertools
+from . import twinutil
 
 PROP = "C16"
+# generated twins (DESIGN §11.3): lempel_ziv_based_encode (all strings over {a,b} up to length 7 x max_size {1,2,3,100} x
+# base dictionaries {}, {a:1,b:1}) and murmurhash (all keys over {0,97,255} up to length 6 x seeds {0,7,2^31-2})
+# regenerated from the repository's current source vs LZ.encode / LZ.murmur inside Lean
+TWIN_CHECKS = [{"op": "twin.lz_exhaustive", "n": 7, "mlen": 6}]
 RULE = ("corpora of 1-6 strings over small alphabets (so that phrases repeat across strings): empty, one-character, "
         "highly repetitive ('a'*n, 'ab'*n), random, unicode (BMP and astral code points), duplicates of a string in one "
         "corpus; max_dict_size in {2,3,4,5,8,65536} (small values hit the cap); max_columns in {None,2,3,16,1000,65536}; "
@@ -254,7 +259,8 @@ def model_requests(case, outs):
     if "crash" in o:
         return []
     if case["kind"] == "murmur":
-        return [{"op": "lz.murmur", "keys": case["keys"], "seed": case["seed"]}]
+        return [{"op": "lz.murmur", "keys": case["keys"], "seed": case["seed"]}] + \
+               [twinutil.call("murmurhash", [k, case["seed"]]) for k in case["keys"][:TWIN_MURMUR_SAMPLE]]
     reqs = []
     for name, mc in _runs(case, o):
         r = o[name]
@@ -265,7 +271,32 @@ def model_requests(case, outs):
         if mc is not None:
             req["hash"] = {"seed": r["seed"], "size": r["size"]}
         reqs.append(req)
-    return reqs
+    return reqs + _twin_lz_reqs(case, o)
+
+
+# Python/numba vs the twins regenerated from the current source (validates translator + interpreter): the first keys of
+# every murmur batch, and the direct lempel_ziv_based_encode calls of the plain (identity-hash) run on the first strings
+TWIN_MURMUR_SAMPLE = 25
+TWIN_LZ_SAMPLE = 8
+
+
+def _twin_lz_sample(case, o):
+    r = o.get("plain") if isinstance(o, dict) else None
+    if not isinstance(r, dict) or "fit_exc" in r or "enc" not in r:
+        return []
+    S = list(case["X"]) + list(case["Xt"])
+    if not all(twinutil.bmp("".join(map(chr, k))) for k, _ in r["base_keys"]):
+        return []
+    return [i for i, s in enumerate(S) if twinutil.bmp(s) and len(s) <= 40][:TWIN_LZ_SAMPLE]
+
+
+def _twin_lz_reqs(case, o):
+    idx = _twin_lz_sample(case, o)
+    if not idx:
+        return []
+    S = list(case["X"]) + list(case["Xt"])
+    base = {"".join(map(chr, k)): c for k, c in o["plain"]["base_keys"]}
+    return [twinutil.call("lempel_ziv_based_encode", [S[i], base, "<fn identity_hash>", case["max_dict_size"]]) for i in idx]
 
 
 def _model_rows(rows):
@@ -287,7 +318,21 @@ def compare(case, outs, resps):
         if bad:
             d.append(f"murmurhash(key={bad[0][0]}, seed={case['seed']}) impl {bad[0][1]} != model {bad[0][2]} "
                      f"({len(bad)} of {len(case['keys'])} keys differ)")
+        tbad = [(k, a, tw.get("ok", tw.get("err"))) for k, a, tw in zip(case["keys"], o["h"], resps[1:])
+                if not twinutil.unavailable(tw) and tw.get("ok") != a]
+        if tbad:
+            d.append(f"murmurhash(key={tbad[0][0]}, seed={case['seed']}) impl {tbad[0][1]} != generated twin {tbad[0][2]} "
+                     f"({len(tbad)} of {len(resps) - 1} sampled keys differ)")
         return d
+    tidx = _twin_lz_sample(case, o)
+    if tidx:
+        resps, tresps = resps[:len(resps) - len(tidx)], resps[len(resps) - len(tidx):]
+        for i, tw in zip(tidx, tresps):
+            if twinutil.unavailable(tw):
+                continue                                   # twin unavailable: not a disagreement
+            got = [[_cp(k), v] for k, v in twinutil.pv(tw["ok"])] if "ok" in tw else tw.get("err")
+            if got != o["plain"]["enc"][i]:
+                d.append(f"plain: lempel_ziv_based_encode on string #{i}: impl {o['plain']['enc'][i]} != generated twin {got}")
     runs = [(n, mc) for n, mc in _runs(case, o) if "fit_exc" not in o[n]]
     if len(runs) != len(resps):
         return [f"{len(resps)} model responses for {len(runs)} runs"]
